@@ -481,6 +481,21 @@ func main() {
 	}
 	ft.WriteString("]\n\n")
 
+	// C10: the active Start's dial / seal-guard / publish order (a socket dialed into a sealed transport is closed there)
+	stWant := map[string]bool{}
+	for _, n := range []string{"cfg.dial", "startGate.RLock", "startGate.RUnlock", "procCancel", "conn.Close", "rt.TCPUp"} {
+		stWant[n] = true
+	}
+	ft.WriteString("/-- (callee) in source order for the dial / seal-guard / close / TCP-up calls of hsmsss `transport.startActive`. -/\n")
+	ft.WriteString("def hsmsss_startActiveSites : List String := [\n")
+	var sts []string
+	for _, cs := range collectCalls(pkgs["hsmsss"], stWant) {
+		if cs.Func == "transport.startActive" && !strings.HasPrefix(cs.File, "verif_hooks") {
+			sts = append(sts, leanStr(cs.Callee))
+		}
+	}
+	ft.WriteString("  " + strings.Join(sts, ", ") + "\n]\n\n")
+
 	ft.WriteString("/-- package-level variables of package sml and whether any function body assigns to them. -/\n")
 	ft.WriteString("def sml_packageVars : List (String × Bool) := [\n")
 	names, written := packageVars(pkgs["sml"])
